@@ -90,6 +90,27 @@ def family(ctx, tables, per_group, groups=range(1, 231), max_atoms=120):
     return cases, disc
 
 
+def off_family(ctx, n):
+    """structures outside the curated family: random triclinic cells with 1-12 random atoms (usually P1 / P-1, every
+    atom its own orbit) and rattled family crystals -- the model must agree on whatever dataset spglib returns"""
+    import numpy as np
+    rng = ctx.rng
+    out = []
+    for k in range(n):
+        na = rng.randint(1, 12)
+        cell = K.cellpar_to_cell(rng.uniform(4, 8), rng.uniform(4, 8), rng.uniform(4, 8), rng.uniform(65, 115), rng.uniform(65, 115), rng.uniform(65, 115))
+        pos = [[rng.random() for _ in range(3)] for _ in range(na)]
+        nums = [rng.choice(K.SPECIES[:6]) for _ in range(na)]
+        cr = {"cell": np.array(cell).tolist(), "scaled_positions": pos, "numbers": nums}
+        if rng.random() < 0.4:
+            H = K.random_supercell_matrix(rng)
+            t = K.transform_basis(dict(cr), H)
+            if t is not None:
+                cr = slim(t)
+        out.append({"crystal": cr, "tol": TOL, "sg": None, "variant": "off-family-random", "base": None, "orbits": []})
+    return out
+
+
 def run_impl(cases, families=True):
     for i, c in enumerate(cases):
         c["id"] = i
@@ -289,6 +310,8 @@ def correspond(ctx, pid, cases, term_fn, fails_fn, nontrivial_fn, build, broken)
                                    "anomalies": [{"sg": c.get("sg"), "variant": c["variant"], "contract": r["contract"], "crystal": c["crystal"]}
                                                  for c, r in anomalies[:5]]}
     anomaly_ids = {c["id"] for c, _ in anomalies}
+    if anomalies:
+        ctx.notes.append("oracle anomaly: %d dataset(s) violate the spglib contract S3 (listed in coverage.contract_S3); not counted as violations of the property" % len(anomalies))
     nviol = 0
     # 1. the property's own predicates on the implementation
     for c, r, f in prop_fail:
@@ -326,7 +349,10 @@ def prove(ctx, pid, steps, build):
         n = len(C.theorem_names(os.path.join(C.COQ, "Properties/%s.v" % pid)))
         ctx.add_obligations(n, 0, "theorems of Properties/%s.v (not attempted: table instances of C14 failed)" % pid)
         return {"stage": "tables", "detail": build["broken"]}
-    pres = C.prove_property(pid, steps, newer_than=S.all_vo_mtime(), timeout=3000)
+    # a per-run file must also be newer than the per-run files it imports (another property's run may have
+    # recompiled Inst/C14Inst.vo since); inf (missing .vo) forces the rebuild of every step
+    newer = max(S.all_vo_mtime(), C.dyn_vo_mtime(["Inst/C14Inst.v"]))
+    pres = C.prove_property(pid, steps, newer_than=newer, timeout=3000)
     ctx.record_proof(pres)
     if pres["failed"]:
         broken = {"stage": "prove", "file": pres["failed"]["path"], "error": pres["failed"]["out"][-1500:]}
@@ -353,6 +379,7 @@ def run(ctx):
     cases = load_corpus("C07")
     fam, disc = family(ctx, build["tables"], per_group)
     cases += fam
+    cases += off_family(ctx, 30 if ctx.tier == "quick" else 300)
     rows, nviol = correspond(ctx, "C07", cases, c07_term, c07_failures, nontrivial_c07, build, broken)
     ctx.coverage["input_distribution"]["discarded_unstable_or_higher_symmetry"] = disc
     ok_rows = [r for r in rows if "error" not in r]
